@@ -11,5 +11,4 @@ CONSTANTS
   MaxOps = 3
 INVARIANTS TypeOK DeadIsEmpty RoundTrip Getters NoEmptyString
 PROPERTY RefusedChangesNothing
-VIEW View
 CHECK_DEADLOCK FALSE
